@@ -539,46 +539,95 @@ def check_log(spec, log):
     return viol
 
 
-def near_tie(spec, log, rel=1e-7):
-    """True if some event time of the run (recomputed from the table) is within rounding distance of a
-    moment at which the backend compared event times with the clock: then exact arithmetic (model) and
-    binary64 (implementation) may legitimately order the two differently. Only used to excuse a
-    model/implementation difference, never a checker finding."""
-    d = spec["delays"]
-    nows, events = [], []
-    prev = 0.0
-    pending = []
+class Dual:
+    """a quantity computed twice: in binary64 (as the implementation does) and exactly (as the model does)"""
+    __slots__ = ("f", "x")
+
+    def __init__(self, f, x=None):
+        self.f = float(f)
+        self.x = Fraction(f) if x is None else x
+
+    def __add__(self, o):
+        return Dual(self.f + o.f, self.x + o.x)
+
+    def __sub__(self, o):
+        return Dual(self.f - o.f, self.x - o.x)
+
+    @staticmethod
+    def max(a, b):
+        return Dual(max(a.f, b.f), max(a.x, b.x))
+
+
+def near_tie(spec, log, rel=1e-9):
+    """True if the order of some event time of the run (recomputed from the table and the observed
+    start / resume calls) and a moment with which the backend compares event times (the clock at a call,
+    the clock inside a blocking stop/pause, a stop event's time) is different in binary64 and in exact
+    arithmetic: then model (exact) and implementation (floats) legitimately process events in a different
+    order. Only used to excuse a model/implementation difference, never a checker finding."""
+    import bisect
+    d = {k: Dual(v) for k, v in spec["delays"].items()}
+    nudge, eps, sleep = Dual(NUDGE), Dual(EPS), Dual(spec["sleep"])
+    ncfg = spec["nx"] * spec["ny"]
+    marks, events = [], []
+    clock = Dual(0.0)
+    cfg, rp = {}, {}
+
+    def run_events(te, idx, seed, mr, p):
+        rows = spec["table"][idx][seed]
+        m = len(rows) if mr is None else min(len(rows), mr)
+        if p is not None and spec["checkpointing"]:
+            off = Dual(rows[p - 1][0]) if 1 <= p <= m else Dual(0.0)
+            xs = [Dual(rows[l - 1][0]) - off for l in range(1, m + 1) if l > p]
+        else:
+            xs = [Dual(rows[l - 1][0]) for l in range(1, m + 1)]
+        prev, last, out = None, te, []
+        for x in xs:
+            e = Dual.max(x, eps if prev is None else prev + eps)
+            prev = e
+            out.append(te + e + d["result"])
+            last = Dual.max(last, te + e)
+        out.append(last + d["complete"])
+        return out
+
     for op in log:
         if "err" in op:
             break
-        k, c = op["kind"], op["clock"]
-        if k in ("pause", "stop"):
-            c1 = prev + op["dt"]
-            nows += [c1 + d["stop"] + NUDGE, c]
-            events += [c1 + d["stop"], c - NUDGE]
-        else:
-            nows.append(c)
+        k = op["kind"]
+        if k in ("start", "resume", "fetch"):
+            clock = clock + Dual(op["dt"])
+        elif k == "sleep":
+            clock = clock + sleep
+        elif k in ("pause", "stop"):
+            c1 = clock + Dual(op["dt"])
+            ts = c1 + d["stop"]
+            c2 = Dual.max(ts + nudge, c1)
+            tc = c2 + d["stopc"]
+            clock = Dual.max(tc + nudge, c2)
+            marks += [c1, ts, c2, tc]
+            if k == "pause" and op["lvl"] is not None:
+                rp[op["t"]] = op["lvl"]
+        marks.append(clock)
         if k in ("start", "resume"):
-            te = c + d["start"]
+            t = op["out"]
+            if k == "start":
+                cfg[t] = (op["cfg"], op["maxres"])
+            elif op["newc"] is not None:
+                cfg[t] = tuple(op["newc"])
+            te = clock + d["start"]
             events.append(te)
-            for idx in range(spec["nx"] * spec["ny"]):
-                for s in range(spec["nseeds"]):
-                    for mr in (None,):
-                        for rp in [None] + list(range(1, spec["nfid"] + 1)):
-                            for (l2, e2, m2) in expected_run(spec, idx, s, mr, rp):
-                                events += [te + e2 + d["result"], te + e2 + d["complete"]]
-            if len(events) > 200000:
-                return True
-        prev = c
-    nows = sorted(set(nows))
-    import bisect
+            idx, mr = cfg.get(t, (ncfg, None))
+            if idx < ncfg and (mr is None or mr >= 1):
+                seeds = range(spec["nseeds"]) if spec["fixed_seed"] is None else [spec["fixed_seed"]]
+                for s_ in seeds:
+                    if 0 <= s_ < spec["nseeds"]:
+                        events += run_events(te, idx, s_, mr, rp.get(t))
+    marks.sort(key=lambda m: m.f)
+    keys = [m.f for m in marks]
     for e in events:
-        j = bisect.bisect_left(nows, e)
-        for jj in (j - 1, j):
-            if 0 <= jj < len(nows) and nows[jj] != e and abs(nows[jj] - e) <= rel * (abs(e) + 1.0):
+        j = bisect.bisect_left(keys, e.f - rel * (abs(e.f) + 1.0))
+        while j < len(marks) and marks[j].f <= e.f + rel * (abs(e.f) + 1.0):
+            m = marks[j]
+            if (e.f <= m.f) != (e.x <= m.x):
                 return True
-    ev = sorted(set(events))
-    for a, b in zip(ev, ev[1:]):
-        if abs(a - b) <= rel * 1e-4 * (abs(a) + 1.0):
-            return True
+            j += 1
     return False
